@@ -348,7 +348,7 @@ func (t *sseClientTransport) handleResponse(data string) {
 	}
 
 	// Get the response ID as a string.
-	idStr := fmt.Sprintf("%v", response.ID)
+	idStr := requestIDKey(response.ID)
 
 	// Find the corresponding response channel. The read lock is held until the
 	// response has been handed over: close() closes the pending channels under the
@@ -575,7 +575,7 @@ func (t *sseClientTransport) sendRequestInternal(ctx context.Context, req *JSONR
 	}
 
 	// Create a response channel.
-	idStr := fmt.Sprintf("%v", req.ID)
+	idStr := requestIDKey(req.ID)
 	responseChan := make(chan *json.RawMessage, 1)
 
 	// Register the response channel.
